@@ -1,4 +1,5 @@
 import PygacModel.Lemmas.TimesRepair
+import PygacModel.Lemmas.MajorityCount
 import Mathlib.Data.Finset.Card
 import Mathlib.Data.Finset.Image
 import Mathlib.Tactic.Ring
@@ -10,6 +11,9 @@ from that the end-to-end repair guarantee for fewer than 40 % corrupt lines (`re
 -/
 namespace PygacModel.Times
 open PygacModel Np
+
+theorem getD_eq {α : Type} (l : List α) (d : α) {i : Nat} (h : i < l.length) : l.getD i d = l[i] :=
+  (List.getElem_eq_getD d).symm
 
 /-! ### `ediff`, `maxR` entry by entry -/
 
@@ -247,5 +251,585 @@ theorem msecFix2_spec (P : Rat) (sg : Bool) (nums : List Int) (j1 j2 : List Rat)
       rw [idealOf_head P sg nums j2 _ hn h2]; rfl
     simp only [e, msecFix2, hrepl, List.getElem_zipWith, List.getElem_zip]
     split <;> simp only [ite_self]
+
+/-! ### stage 1 when every year is plausible -/
+
+/-- the fields a pass must have for the line-by-line description below: plausible years, a first
+time of day of at least 1 ms, equal lengths -/
+structure YearOk (nowYear : Int) (r : RawTimes) : Prop where
+  n_pos : 0 < r.nums.length
+  len_y : r.year.length = r.nums.length
+  len_j : r.jday.length = r.nums.length
+  len_m : r.msec.length = r.nums.length
+  year_ok : ∀ y ∈ r.year, 1978 ≤ y ∧ y ≤ nowYear
+  msec_first : 1 ≤ r.msec.headD 0
+
+def j1Of (r : RawTimes) : List Rat := jdayFix1 r.jday
+def j2Of (r : RawTimes) : List Rat := jdayFix2 (jdayFix1 r.jday)
+def m2Of (P : Rat) (sg : Bool) (r : RawTimes) : List Rat :=
+  msecFix2 P sg r.nums (j1Of r) (j2Of r) r.msec (msecFix1 P sg r.nums (j2Of r) r.msec).1 (msecFix1 P sg r.nums (j2Of r) r.msec).2
+
+theorem j1Of_length (r : RawTimes) : (j1Of r).length = r.jday.length := by simp [j1Of, jdayFix1]
+theorem j2Of_length (r : RawTimes) : (j2Of r).length = r.jday.length := by simp [j2Of, jdayFix2, jdayFix1]
+
+theorem stage1_yearOk (P : Rat) (sg : Bool) (nowYear : Int) (r : RawTimes) (h : YearOk nowYear r) :
+    stage1 P sg nowYear r = { year := r.year, jday := (j2Of r).map truncR, msec := m2Of P sg r } := by
+  have hy : r.year.findIdx? (fun y => decide (y < 1978 ∨ y > nowYear)) = none := by
+    rw [List.findIdx?_eq_none_iff]
+    intro y hy
+    have := h.year_ok y hy
+    simp; omega
+  unfold stage1 m2Of j2Of j1Of
+  simp only [hy]
+
+theorem m2Of_length (P : Rat) (sg : Bool) (nowYear : Int) (r : RawTimes) (h : YearOk nowYear r) :
+    (m2Of P sg r).length = r.nums.length := by
+  unfold m2Of
+  apply msecFix2_length
+  · rw [j1Of_length, h.len_j]
+  · rw [j2Of_length, h.len_j]
+  · exact h.len_m
+  · rcases msecFix1_spec P sg r.nums (j2Of r) r.msec h.msec_first with e | e <;> rw [e]
+    · simp [h.len_m]
+    · exact idealOf_length P sg r.nums (j2Of r) _ (by rw [j2Of_length, h.len_j])
+
+theorem s1_yearOk_length (P : Rat) (sg : Bool) (nowYear : Int) (r : RawTimes) (h : YearOk nowYear r) :
+    (s1Instants (stage1 P sg nowYear r)).length = r.nums.length := by
+  rw [stage1_yearOk P sg nowYear r h]
+  simp [s1Instants, h.len_y, j2Of_length, h.len_j, m2Of_length P sg nowYear r h]
+
+theorem s1_yearOk_getElem (P : Rat) (sg : Bool) (nowYear : Int) (r : RawTimes) (h : YearOk nowYear r)
+    (i : Nat) (hi : i < r.nums.length) (hs : i < (s1Instants (stage1 P sg nowYear r)).length) :
+    (s1Instants (stage1 P sg nowYear r))[i] =
+      instant (r.year[i]'(by have := h.len_y; omega)) (truncR ((j2Of r)[i]'(by rw [j2Of_length, h.len_j]; exact hi))) 0
+        + truncR ((m2Of P sg r)[i]'(by rw [m2Of_length P sg nowYear r h]; exact hi)) := by
+  have e := stage1_yearOk P sg nowYear r h
+  simp only [s1Instants, e, List.getElem_zipWith, List.getElem_zip, List.getElem_map]
+
+/-! ### whole-number day series -/
+
+theorem j1_getElem (r : RawTimes) (i : Nat) (hi : i < (j1Of r).length) (h1 : i < r.jday.length) :
+    (j1Of r)[i] = if r.jday[i] < 1 ∨ r.jday[i] > 366 then medianD (castL r.jday) else (r.jday[i] : Rat) :=
+  jdayFix1_getElem r.jday i hi h1
+
+theorem j1_int (r : RawTimes) (hmed : ∃ k : Int, medianD (castL r.jday) = (k : Rat)) (i : Nat)
+    (hi : i < (j1Of r).length) : ∃ z : Int, (j1Of r)[i] = (z : Rat) := by
+  have h1 : i < r.jday.length := by rwa [j1Of_length] at hi
+  rw [j1_getElem r i hi h1]
+  split
+  · exact hmed
+  · exact ⟨_, rfl⟩
+
+theorem maxR_j1_int (r : RawTimes) (hmed : ∃ k : Int, medianD (castL r.jday) = (k : Rat)) (hn : 0 < r.jday.length) :
+    ∃ z : Int, maxR (j1Of r) = (z : Rat) := by
+  have hne : j1Of r ≠ [] := by
+    intro h
+    have := j1Of_length r
+    rw [h] at this
+    simp at this
+    omega
+  obtain ⟨i, hi, e⟩ := List.mem_iff_getElem.mp (maxR_mem (j1Of r) hne)
+  rw [← e]
+  exact j1_int r hmed i hi
+
+/-- every entry of the repaired day series is its first-step value or the maximum; in the second case the
+first-step series steps down at that line -/
+theorem j2_getElem (r : RawTimes) (i : Nat) (hi : i < (j2Of r).length) (h1 : i < (j1Of r).length)
+    (he : i < (ediff (j1Of r)).length) :
+    ((j2Of r)[i] = (j1Of r)[i] ∧ ¬ (ediff (j1Of r))[i] < 0) ∨ ((j2Of r)[i] = maxR (j1Of r) ∧ (ediff (j1Of r))[i] < 0) :=
+  jdayFix2_getElem (j1Of r) i hi h1 he
+
+theorem j2_int (r : RawTimes) (hmed : ∃ k : Int, medianD (castL r.jday) = (k : Rat)) (i : Nat)
+    (hi : i < (j2Of r).length) : ∃ z : Int, (j2Of r)[i] = (z : Rat) := by
+  have hl1 := j1Of_length r
+  have hl2 := j2Of_length r
+  rcases j2_getElem r i hi (by omega) (by simp; omega) with ⟨e, _⟩ | ⟨e, _⟩
+  · rw [e]; exact j1_int r hmed i (by omega)
+  · rw [e]; exact maxR_j1_int r hmed (by omega)
+
+theorem j2_ge_j1 (r : RawTimes) (i : Nat) (hi : i < (j2Of r).length) (h1 : i < (j1Of r).length) :
+    (j1Of r)[i] ≤ (j2Of r)[i] := by
+  rcases j2_getElem r i hi h1 (by simp; omega) with ⟨e, _⟩ | ⟨e, _⟩
+  · rw [e]
+  · rw [e]; exact maxR_ge _ _ (List.getElem_mem h1)
+
+/-- the first line's day is never altered by the second step -/
+theorem j2_head (r : RawTimes) (h0 : 0 < (j2Of r).length) (h1 : 0 < (j1Of r).length) : (j2Of r)[0] = (j1Of r)[0] := by
+  rcases j2_getElem r 0 h0 h1 (by simp; omega) with ⟨e, _⟩ | ⟨_, hneg⟩
+  · exact e
+  · rw [ediff_getElem_zero] at hneg
+    exact absurd hneg (lt_irrefl 0)
+
+/-! ### the scenario: arbitrary day / ms fields on the lines marked `good = false` -/
+
+/-- `r0` is what the instrument should have recorded (plausible, one calendar year, every line consistent
+with the line numbers to the millisecond); `r` is the file: the same line numbers and years, and on the
+lines marked `good` the same day and ms fields - on the other lines ANY values (the ms field within its
+unsigned 32 bits).  Side conditions: the first line is good, the median of the recorded day numbers is a
+whole number, the pass spans at most six hours. -/
+structure Garbled (P : Rat) (sg : Bool) (nowYear : Int) (r0 r : RawTimes) (good : List Bool) : Prop where
+  clean : Clean nowYear r0
+  year_const : ∀ y ∈ r0.year, y = r0.year.headD 0
+  truth : ∀ i, i < r0.nums.length → GoodAt P sg r0 i
+  nums_eq : r.nums = r0.nums
+  year_eq : r.year = r0.year
+  len_j : r.jday.length = r0.nums.length
+  len_m : r.msec.length = r0.nums.length
+  len_g : good.length = r0.nums.length
+  first_good : ∀ h : 0 < good.length, good[0] = true
+  good_j : ∀ i (h1 : i < good.length) (h2 : i < r.jday.length) (h3 : i < r0.jday.length),
+    good[i] = true → r.jday[i] = r0.jday[i]
+  good_m : ∀ i (h1 : i < good.length) (h2 : i < r.msec.length) (h3 : i < r0.msec.length),
+    good[i] = true → r.msec[i] = r0.msec[i]
+  msec_u32 : ∀ m ∈ r.msec, 0 ≤ m ∧ m < 4294967296
+  med_int : ∃ k : Int, medianD (castL r.jday) = (k : Rat)
+  span : ∀ i (h : i < r0.nums.length),
+    0 ≤ ((lineIdx sg r0.nums[i] - lineIdx sg (r0.nums.headD 0) : Int) : Rat) * P ∧
+    ((lineIdx sg r0.nums[i] - lineIdx sg (r0.nums.headD 0) : Int) : Rat) * P ≤ 21600000
+
+namespace Garbled
+variable {P : Rat} {sg : Bool} {nowYear : Int} {r0 r : RawTimes} {good : List Bool}
+
+theorem msec_head (h : Garbled P sg nowYear r0 r good) : r.msec.headD 0 = r0.msec.headD 0 := by
+  have hn := h.clean.n_pos
+  have h1 : 0 < r.msec.length := by rw [h.len_m]; exact hn
+  have h2 : 0 < r0.msec.length := by rw [h.clean.len_m]; exact hn
+  have hg : 0 < good.length := by rw [h.len_g]; exact hn
+  rw [headD_eq_getElem _ h1, headD_eq_getElem _ h2]
+  exact h.good_m 0 hg h1 h2 (h.first_good hg)
+
+theorem jday_head (h : Garbled P sg nowYear r0 r good) : r.jday.headD 0 = r0.jday.headD 0 := by
+  have hn := h.clean.n_pos
+  have h1 : 0 < r.jday.length := by rw [h.len_j]; exact hn
+  have h2 : 0 < r0.jday.length := by rw [h.clean.len_j]; exact hn
+  have hg : 0 < good.length := by rw [h.len_g]; exact hn
+  rw [headD_eq_getElem _ h1, headD_eq_getElem _ h2]
+  exact h.good_j 0 hg h1 h2 (h.first_good hg)
+
+theorem yearOk (h : Garbled P sg nowYear r0 r good) : YearOk nowYear r where
+  n_pos := by rw [h.nums_eq]; exact h.clean.n_pos
+  len_y := by rw [h.year_eq, h.nums_eq]; exact h.clean.len_y
+  len_j := by rw [h.nums_eq]; exact h.len_j
+  len_m := by rw [h.nums_eq]; exact h.len_m
+  year_ok := by rw [h.year_eq]; exact h.clean.year_ok
+  msec_first := by rw [h.msec_head]; exact h.clean.msec_first
+
+/-- the first-step day of a good line is its true day -/
+theorem j1_good (h : Garbled P sg nowYear r0 r good) (i : Nat) (hi : i < r0.nums.length)
+    (hg : good[i]'(by rw [h.len_g]; exact hi) = true) :
+    (j1Of r)[i]'(by rw [j1Of_length, h.len_j]; exact hi) = ((r0.jday[i]'(by rw [h.clean.len_j]; exact hi) : Int) : Rat) := by
+  have h1 : i < r.jday.length := by rw [h.len_j]; exact hi
+  have h2 : i < r0.jday.length := by rw [h.clean.len_j]; exact hi
+  have e := h.good_j i (by rw [h.len_g]; exact hi) h1 h2 hg
+  have hr := h.clean.jday_ok _ (List.getElem_mem h2)
+  rw [j1_getElem r i (by rw [j1Of_length]; exact h1) h1, e, if_neg (by omega)]
+
+/-- the head of the repaired day series is the true first day -/
+theorem j2_headR (h : Garbled P sg nowYear r0 r good) : headR (j2Of r) = ((r0.jday.headD 0 : Int) : Rat) := by
+  have hn := h.clean.n_pos
+  have hl2 : (j2Of r).length = r0.nums.length := by rw [j2Of_length, h.len_j]
+  have hl1 : (j1Of r).length = r0.nums.length := by rw [j1Of_length, h.len_j]
+  have hg : 0 < good.length := by rw [h.len_g]; exact hn
+  rw [headR_eq_getElem _ (by omega), j2_head r (by omega) (by omega), h.j1_good 0 hn (h.first_good hg),
+    headD_eq_getElem _ (by rw [h.clean.len_j]; exact hn)]
+
+end Garbled
+
+/-! ### what stage 1 returns for each line of such a pass -/
+
+/-- deviation of line `i`'s stage-1 offset from the pass offset -/
+def offErr (P : Rat) (sg : Bool) (nowYear : Int) (r0 r : RawTimes) (i : Nat) : Rat :=
+  (((s1Instants (stage1 P sg nowYear r)).getD i 0 : Int) : Rat)
+    - ((lineIdx sg (r0.nums.getD i 0) : Int) : Rat) * P - passOffset P sg r0
+
+theorem instant_cast (Y z : Int) :
+    ((instant Y z 0 : Int) : Rat) = (daysToYear Y : Rat) * 86400000 + ((z : Rat) - 1) * 86400000 := by
+  unfold instant msPerDay; push_cast; ring
+
+/-- **Line by line**: the repaired day `z` is a whole number, and the stage-1 time is either the ideal one
+(to the ms) or the recorded time of day on day `z` - the latter only where the recorded series does not
+jump. -/
+theorem line_cases {P : Rat} {sg : Bool} {nowYear : Int} {r0 r : RawTimes} {good : List Bool}
+    (h : Garbled P sg nowYear r0 r good) (i : Nat) (hi : i < r0.nums.length) :
+    ∃ z : Int, (j2Of r).getD i 0 = (z : Rat) ∧
+      (absR (offErr P sg nowYear r0 r i) < 1 ∨
+       (offErr P sg nowYear r0 r i = ((z : Rat) - ((r0.jday.getD i 0 : Int) : Rat)) * 86400000
+            + (((r.msec.getD i 0 : Int) : Rat) - (idealOfDay P sg r0).getD i 0) ∧
+        ¬ (((((ediffU32 r.msec).getD i 0 : Int) : Rat) < -1000 ∨ (((ediffU32 r.msec).getD i 0 : Int) : Rat) > 1000)
+            ∧ (ediff (j1Of r)).getD i 0 ≠ 1))) := by
+  have hY := h.yearOk
+  have hin : i < r.nums.length := by rw [h.nums_eq]; exact hi
+  have hl2 : (j2Of r).length = r0.nums.length := by rw [j2Of_length, h.len_j]
+  have hl1 : (j1Of r).length = r0.nums.length := by rw [j1Of_length, h.len_j]
+  have hlm : (m2Of P sg r).length = r0.nums.length := by rw [m2Of_length P sg nowYear r hY, h.nums_eq]
+  have hls : (s1Instants (stage1 P sg nowYear r)).length = r0.nums.length := by
+    rw [s1_yearOk_length P sg nowYear r hY, h.nums_eq]
+  have hlj0 : r0.jday.length = r0.nums.length := h.clean.len_j
+  have hly0 : r0.year.length = r0.nums.length := h.clean.len_y
+  have hlid : (idealOfDay P sg r0).length = r0.nums.length := idealOfDay_length P sg r0 h.clean.len_j
+  obtain ⟨z, hz⟩ := j2_int r h.med_int i (by omega)
+  refine ⟨z, by rw [getD_eq _ _ (by omega), hz], ?_⟩
+  -- the stage-1 instant of this line
+  have hs := s1_yearOk_getElem P sg nowYear r hY i hin (by omega)
+  have hyr : r.year[i]'(by rw [h.year_eq]; omega) = r0.year.headD 0 := by
+    have : r.year[i]'(by rw [h.year_eq]; omega) = r0.year[i]'(by omega) := by
+      simp only [h.year_eq]
+    rw [this]
+    exact h.year_const _ (List.getElem_mem _)
+  have hyr0 : r0.year[i]'(by omega) = r0.year.headD 0 := h.year_const _ (List.getElem_mem _)
+  -- the truth of this line
+  have hid := ideal_instant_identity P sg nowYear r0 h.clean h.year_const i hi
+  rw [hyr0, instant_cast] at hid
+  have htr : truncR (j2Of r)[i] = z := by rw [hz, truncR_intCast]
+  unfold offErr
+  rw [getD_eq _ _ (by omega), getD_eq (r0.nums) _ (by omega), hs, hyr, htr]
+  have hmsec : (m2Of P sg r)[i]'(by omega)
+        = (idealOf P sg r.nums (j2Of r) ((r.msec.headD 0 : Int) : Rat))[i]'(by
+            rw [idealOf_length P sg r.nums (j2Of r) _ (by rw [hl2, h.nums_eq])]; exact hin) ∨
+      ((m2Of P sg r)[i]'(by omega) = ((r.msec[i]'(by rw [h.len_m]; exact hi) : Int) : Rat) ∧
+        ¬ (((((ediffU32 r.msec)[i]'(by simp; rw [h.len_m]; exact hi) : Int) : Rat) < -1000 ∨
+            ((((ediffU32 r.msec)[i]'(by simp; rw [h.len_m]; exact hi) : Int) : Rat) > 1000))
+          ∧ (ediff (j1Of r))[i]'(by simp; omega) ≠ 1)) := by
+    unfold m2Of
+    exact msecFix2_spec P sg r.nums (j1Of r) (j2Of r) r.msec hY.msec_first hY.n_pos
+      (by rw [hl1, h.nums_eq]) (by rw [hl2, h.nums_eq]) hY.len_m i hin (by
+        have : (m2Of P sg r).length = r0.nums.length := hlm
+        unfold m2Of at this; omega)
+  rcases hmsec with e | ⟨e, hk⟩
+  · -- replaced by the ideal value for the repaired day: exactly the true time
+    left
+    rw [e, idealOf_getElem P sg r.nums (j2Of r) _ i (by rw [idealOf_length P sg r.nums (j2Of r) _ (by rw [hl2, h.nums_eq])]; exact hin)
+      hin (by omega), hz, h.j2_headR, h.msec_head]
+    have hn0 : r.nums[i] = r0.nums[i] := by simp only [h.nums_eq]
+    have hn1 : r.nums.headD 0 = r0.nums.headD 0 := by rw [h.nums_eq]
+    rw [hn0, hn1]
+    set R : Rat := ((r0.msec.headD 0 : Int) : Rat) + (((lineIdx sg r0.nums[i] - lineIdx sg (r0.nums.headD 0) : Int) : Rat) * P
+      - ((z : Rat) - ((r0.jday.headD 0 : Int) : Rat)) * 86400000) with hR
+    have hc := truncR_close R
+    have : ((instant (r0.year.headD 0) z 0 + truncR R : Int) : Rat) - ((lineIdx sg r0.nums[i] : Int) : Rat) * P - passOffset P sg r0
+        = ((truncR R : Int) : Rat) - R := by
+      push_cast
+      rw [instant_cast, hR]
+      unfold passOffset instant msPerDay
+      push_cast
+      ring
+    rw [this]
+    exact hc
+  · -- the recorded time of day, on day `z`
+    right
+    refine ⟨?_, ?_⟩
+    · rw [e, truncR_intCast, getD_eq _ _ (by omega), getD_eq (r.msec) _ (by rw [h.len_m]; exact hi),
+        getD_eq (idealOfDay P sg r0) _ (by omega)]
+      push_cast
+      rw [instant_cast]
+      linarith [hid]
+    · rw [getD_eq _ _ (by simp; rw [h.len_m]; exact hi), getD_eq _ _ (by simp; omega)]
+      exact hk
+
+/-! ### good lines, lost lines and the lines before them -/
+
+theorem le_absR (x : Rat) : x ≤ absR x := by
+  unfold absR; split <;> linarith
+
+theorem neg_le_absR (x : Rat) : -x ≤ absR x := by
+  unfold absR; split <;> linarith
+
+section
+variable {P : Rat} {sg : Bool} {nowYear : Int} {r0 r : RawTimes} {good : List Bool}
+
+/-- the condition under which the second ms step keeps the recorded value of line `i` -/
+def KeptCond (r : RawTimes) (i : Nat) : Prop :=
+  ¬ (((((ediffU32 r.msec).getD i 0 : Int) : Rat) < -1000 ∨ (((ediffU32 r.msec).getD i 0 : Int) : Rat) > 1000)
+      ∧ (ediff (j1Of r)).getD i 0 ≠ 1)
+
+/-- a good line comes out of stage 1 within 1 ms of its true time, or a whole number of days away from it
+(its day was replaced by the maximum and its recorded time of day kept) -/
+theorem good_line (h : Garbled P sg nowYear r0 r good) (i : Nat) (hi : i < r0.nums.length)
+    (hg : good.getD i false = true) :
+    absR (offErr P sg nowYear r0 r i) < 1 ∨
+    (absR (offErr P sg nowYear r0 r i) > 720000 ∧ (j2Of r).getD i 0 ≠ (j1Of r).getD i 0 ∧ KeptCond r i) := by
+  have hgl : i < good.length := by rw [h.len_g]; exact hi
+  have hg' : good[i] = true := by rw [getD_eq _ _ hgl] at hg; exact hg
+  have hm1 : i < r.msec.length := by rw [h.len_m]; exact hi
+  have hm0 : i < r0.msec.length := by rw [h.clean.len_m]; exact hi
+  have hj0 : i < r0.jday.length := by rw [h.clean.len_j]; exact hi
+  have hl1 : i < (j1Of r).length := by rw [j1Of_length, h.len_j]; exact hi
+  obtain ⟨z, hz, hc⟩ := line_cases h i hi
+  rcases hc with hrep | ⟨hoff, hk⟩
+  · left; exact hrep
+  · obtain ⟨_, h2, hlo, hhi⟩ := h.truth i hi
+    have hmm : r.msec.getD i 0 = r0.msec[i] := by rw [getD_eq _ _ hm1]; exact h.good_m i hgl hm1 hm0 hg'
+    rw [hmm, getD_eq _ _ h2, getD_eq _ _ hj0] at hoff
+    by_cases hzj : z = r0.jday[i]
+    · left
+      rw [hoff, hzj, absR_lt_iff]
+      constructor <;> linarith
+    · right
+      refine ⟨?_, ?_, hk⟩
+      · rcases lt_or_gt_of_ne hzj with hlt | hgt
+        · have : (z : Rat) ≤ (r0.jday[i] : Rat) - 1 := by
+            have : z ≤ r0.jday[i] - 1 := by omega
+            exact_mod_cast this
+          have hneg := neg_le_absR (offErr P sg nowYear r0 r i)
+          rw [hoff] at hneg ⊢
+          nlinarith
+        · have : (r0.jday[i] : Rat) + 1 ≤ (z : Rat) := by
+            have : r0.jday[i] + 1 ≤ z := by omega
+            exact_mod_cast this
+          have hpos := le_absR (offErr P sg nowYear r0 r i)
+          rw [hoff] at hpos ⊢
+          nlinarith
+      · rw [hz, getD_eq _ _ hl1, h.j1_good i hi hg']
+        intro hEq
+        exact hzj (by exact_mod_cast hEq)
+
+/-- where the repaired day differs from the first-step day, the first-step series steps down from the
+line before -/
+theorem day_replaced_step (r : RawTimes) (i : Nat) (hi : i < r.jday.length)
+    (hne : (j2Of r).getD i 0 ≠ (j1Of r).getD i 0) :
+    ∃ p, i = p + 1 ∧ (j1Of r).getD (p + 1) 0 < (j1Of r).getD p 0 := by
+  have hl1 : (j1Of r).length = r.jday.length := j1Of_length r
+  have hl2 : (j2Of r).length = r.jday.length := j2Of_length r
+  rw [getD_eq _ _ (by omega), getD_eq _ _ (by omega)] at hne
+  rcases j2_getElem r i (by omega) (by omega) (by simp; omega) with ⟨e, _⟩ | ⟨_, hneg⟩
+  · exact absurd e hne
+  · cases i with
+    | zero => rw [ediff_getElem_zero] at hneg; exact absurd hneg (lt_irrefl 0)
+    | succ p =>
+      refine ⟨p, rfl, ?_⟩
+      rw [ediff_getElem_succ _ p (by simp; omega) (by omega)] at hneg
+      rw [getD_eq _ _ (by omega), getD_eq _ _ (by omega)]
+      linarith
+
+/-- ... and that line before is not a good one (the true days never decrease) -/
+theorem pred_not_good (h : Garbled P sg nowYear r0 r good) (p : Nat) (hp : p + 1 < r0.nums.length)
+    (hgi : good.getD (p + 1) false = true) (hlt : (j1Of r).getD (p + 1) 0 < (j1Of r).getD p 0) :
+    ¬ good.getD p false = true := by
+  intro hgp
+  have hl1 : (j1Of r).length = r0.nums.length := by rw [j1Of_length, h.len_j]
+  have hgl : good.length = r0.nums.length := h.len_g
+  rw [getD_eq _ _ (by omega), getD_eq _ _ (by omega)] at hlt
+  rw [getD_eq _ _ (by omega)] at hgi hgp
+  rw [h.j1_good (p + 1) hp hgi, h.j1_good p (by omega) hgp] at hlt
+  have hlen : (castL r0.jday).length = r0.nums.length := by simp [h.clean.len_j]
+  have hel : p + 1 < (ediff (castL r0.jday)).length := by rw [ediff_length, hlen]; exact hp
+  have hmono := h.clean.jday_mono _ (List.getElem_mem hel)
+  rw [ediff_getElem_succ _ p hel (by omega)] at hmono
+  simp only [castL, List.getElem_map] at hmono
+  linarith
+
+/-- **The line before a lost line**: if good line `p + 1` kept its recorded time of day although its day was
+replaced (the first-step day series steps down from `p`, the recorded ms series does not jump), then line
+`p` itself comes out either at its true time or at least 18 hours away from it - never near the pass offset
+with a wrong value. -/
+theorem line_before_lost (h : Garbled P sg nowYear r0 r good) (p : Nat) (hp : p + 1 < r0.nums.length)
+    (hgi : good.getD (p + 1) false = true) (hlt : (j1Of r).getD (p + 1) 0 < (j1Of r).getD p 0)
+    (hk : KeptCond r (p + 1)) :
+    absR (offErr P sg nowYear r0 r p) < 1 ∨ absR (offErr P sg nowYear r0 r p) > 720000 := by
+  have hpp : p < r0.nums.length := by omega
+  have hl1 : (j1Of r).length = r0.nums.length := by rw [j1Of_length, h.len_j]
+  have hl2 : (j2Of r).length = r0.nums.length := by rw [j2Of_length, h.len_j]
+  have hgl : good.length = r0.nums.length := h.len_g
+  have hlm : r.msec.length = r0.nums.length := h.len_m
+  have hlm0 : r0.msec.length = r0.nums.length := h.clean.len_m
+  have hlj0 : r0.jday.length = r0.nums.length := h.clean.len_j
+  have hlid : (idealOfDay P sg r0).length = r0.nums.length := idealOfDay_length P sg r0 h.clean.len_j
+  obtain ⟨z, hz, hc⟩ := line_cases h p hpp
+  rcases hc with hrep | ⟨hoff, _⟩
+  · left; exact hrep
+  · right
+    have hgi' : good[p + 1] = true := by rw [getD_eq _ _ (by omega)] at hgi; exact hgi
+    -- the repaired day of line p lies above the true day of line p + 1
+    have hzgt : r0.jday[p + 1] + 1 ≤ z := by
+      have h1 := j2_ge_j1 r p (by omega) (by omega)
+      rw [getD_eq _ _ (by omega)] at hz
+      rw [getD_eq _ _ (by omega), getD_eq _ _ (by omega), h.j1_good (p + 1) hp hgi'] at hlt
+      rw [hz] at h1
+      have : ((r0.jday[p + 1] : Int) : Rat) < (z : Rat) := lt_of_lt_of_le hlt h1
+      have : r0.jday[p + 1] < z := by exact_mod_cast this
+      omega
+    have hzgtR : ((r0.jday[p + 1] : Int) : Rat) + 1 ≤ (z : Rat) := by exact_mod_cast hzgt
+    -- the recorded ms of line p is at most 1000 below the (true) ms of line p + 1
+    have hwj : (ediff (j1Of r)).getD (p + 1) 0 ≠ 1 := by
+      rw [getD_eq _ _ (by simp; omega), ediff_getElem_succ _ p (by simp; omega) (by omega)]
+      rw [getD_eq _ _ (by omega), getD_eq _ _ (by omega)] at hlt
+      intro he; linarith
+    have hwm : ((ediffU32 r.msec).getD (p + 1) 0 : Int) ≤ 1000 := by
+      unfold KeptCond at hk
+      by_contra hgt
+      apply hk
+      refine ⟨Or.inr ?_, hwj⟩
+      have : (1000 : Int) < (ediffU32 r.msec).getD (p + 1) 0 := by omega
+      exact_mod_cast this
+    rw [getD_eq _ _ (by simp; omega), ediffU32_getElem_succ _ p (by simp; omega) (by omega)] at hwm
+    have hu1 := h.msec_u32 _ (List.getElem_mem (l := r.msec) (show p < r.msec.length by omega))
+    have hu2 := h.msec_u32 _ (List.getElem_mem (l := r.msec) (show p + 1 < r.msec.length by omega))
+    have hg : r.msec[p + 1] - 1000 ≤ r.msec[p] := by omega
+    have hgR : ((r.msec[p + 1] : Int) : Rat) - 1000 ≤ ((r.msec[p] : Int) : Rat) := by exact_mod_cast hg
+    have hmt : r.msec[p + 1] = r0.msec[p + 1] := h.good_m (p + 1) (by omega) (by omega) (by omega) hgi'
+    obtain ⟨_, _, hlo, _⟩ := h.truth (p + 1) hp
+    -- the ideal times of day of the two lines
+    have hi1 := idealOfDay_getElem P sg r0 (p + 1) hp (by omega) (by omega)
+    have hi0 := idealOfDay_getElem P sg r0 p hpp (by omega) (by omega)
+    have hs1 := (h.span (p + 1) hp).1
+    have hs0 := (h.span p hpp).2
+    rw [getD_eq _ _ (by omega), getD_eq (r.msec) _ (by omega), getD_eq (idealOfDay P sg r0) _ (by omega)] at hoff
+    have hpos := le_absR (offErr P sg nowYear r0 r p)
+    rw [hmt] at hgR
+    rw [hoff] at hpos ⊢
+    linarith
+
+end
+
+/-! ### the end-to-end guarantee -/
+
+/-- index predicates of the counting argument -/
+def GoodI (good : List Bool) (i : Nat) : Prop := good.getD i false = true
+def NearI (P : Rat) (sg : Bool) (nowYear : Int) (r0 r : RawTimes) (hd : Int) (i : Nat) : Prop :=
+  absR (offErr P sg nowYear r0 r i + (passOffset P sg r0 - (hd : Rat))) ≤ 360000
+def BandI (P : Rat) (sg : Bool) (nowYear : Int) (r0 r : RawTimes) (i : Nat) : Prop :=
+  absR (offErr P sg nowYear r0 r i) ≤ 2
+
+/-- **Garbage in the day-of-year and millisecond fields of fewer than 40 % of the lines is repaired**
+(scenario `Garbled`; header time within 6 min - 2 ms of the pass offset; line numbers not decreasing for the
+signed POD field): `get_times` returns one time per line and every returned time is within 10 s (+ 2 ms) of
+the true time `tn + passOffset`. -/
+theorem repair_day_ms_garbage (P : Rat) (sg : Bool) (nowYear : Int) (hd : Int) (r0 r : RawTimes) (good : List Bool)
+    (h : Garbled P sg nowYear r0 r good)
+    (hdec : (sg && decreasing r.nums) = false)
+    (hbad : 5 * good.count false < 2 * r0.nums.length)
+    (hhead : absR (passOffset P sg r0 - (hd : Rat)) ≤ 360000 - 2) :
+    (getTimes {} P nowYear sg (some hd) r).length = r0.nums.length ∧
+    ∀ i (hi : i < r0.nums.length) (h1 : i < (getTimes {} P nowYear sg (some hd) r).length),
+      absR ((((getTimes {} P nowYear sg (some hd) r)[i] : Int) : Rat)
+        - (((lineIdx sg r0.nums[i] : Int) : Rat) * P + passOffset P sg r0)) ≤ 10002 := by
+  classical
+  have hY := h.yearOk
+  set n := r0.nums.length with hn
+  have hnpos : 0 < n := h.clean.n_pos
+  have hlen1 : (s1Instants (stage1 P sg nowYear r)).length = n := by
+    rw [s1_yearOk_length P sg nowYear r hY, h.nums_eq]
+  set t1 := s1Instants (stage1 P sg nowYear r) with ht1
+  set tn := tnOf P sg r.nums with htn
+  have htnlen : tn.length = n := by rw [htn, tnOf_length, h.nums_eq]
+  set C := passOffset P sg r0 with hC
+  have htni : ∀ i (hi : i < tn.length) (hi' : i < n), tn[i] = ((lineIdx sg r0.nums[i] : Int) : Rat) * P := by
+    intro i hi hi'
+    simp only [htn, tnOf, List.getElem_map, h.nums_eq]
+  set offs := offsetsOf t1 tn with hoffs
+  have hofflen : offs.length = n := by simp [hoffs, offsetsOf, hlen1, htnlen]
+  -- offsets in terms of the per-line deviation
+  have hoffi : ∀ i, i < n → offs.getD i 0 = offErr P sg nowYear r0 r i + C := by
+    intro i hi
+    rw [getD_eq _ _ (by omega)]
+    simp only [hoffs, offsetsOf, List.getElem_zipWith]
+    rw [htni i (by omega) hi]
+    unfold offErr
+    rw [getD_eq _ _ (by rw [← ht1, hlen1]; exact hi), getD_eq (r0.nums) _ hi]
+    ring
+  -- the index predicates
+  set goodI : Nat → Prop := GoodI good with hgoodI
+  set nearI : Nat → Prop := NearI P sg nowYear r0 r hd with hnearI
+  set bandI : Nat → Prop := BandI P sg nowYear r0 r with hbandI
+  have hgoodI' : ∀ i, goodI i ↔ good.getD i false = true := fun i => Iff.rfl
+  have hnearI' : ∀ i, nearI i ↔ absR (offErr P sg nowYear r0 r i + (C - (hd : Rat))) ≤ 360000 := fun i => Iff.rfl
+  have hbandI' : ∀ i, bandI i ↔ absR (offErr P sg nowYear r0 r i) ≤ 2 := fun i => Iff.rfl
+  rw [absR_le_iff] at hhead
+  have hfar : ∀ i, absR (offErr P sg nowYear r0 r i) > 720000 → ¬ nearI i := by
+    intro i hf hnr
+    rw [hnearI', absR_le_iff] at hnr
+    unfold absR at hf
+    split at hf <;> linarith [hnr.1, hnr.2, hhead.1, hhead.2]
+  have hclose : ∀ i, absR (offErr P sg nowYear r0 r i) < 1 → nearI i ∧ bandI i := by
+    intro i hc
+    rw [absR_lt_iff] at hc
+    rw [hnearI', hbandI', absR_le_iff, absR_le_iff]
+    refine ⟨⟨?_, ?_⟩, ⟨?_, ?_⟩⟩ <;> linarith [hc.1, hc.2, hhead.1, hhead.2]
+  have ha : ∀ i, i < n → goodI i → nearI i → bandI i := by
+    intro i hi hg hnr
+    rcases good_line h i hi hg with hc | ⟨hf, _, _⟩
+    · exact (hclose i hc).2
+    · exact absurd hnr (hfar i hf)
+  have hb : ∀ i, i < n → goodI i → ¬ nearI i → ∃ p, i = p + 1 ∧ ¬ goodI p ∧ (bandI p ∨ ¬ nearI p) := by
+    intro i hi hg hnn
+    rcases good_line h i hi hg with hc | ⟨_, hne, hk⟩
+    · exact absurd (hclose i hc).1 hnn
+    · obtain ⟨p, hip, hlt⟩ := day_replaced_step r i (by rw [h.len_j]; exact hi) hne
+      subst hip
+      refine ⟨p, rfl, pred_not_good h p hi hg hlt, ?_⟩
+      rcases line_before_lost h p hi hg hlt hk with hc | hf
+      · left; exact (hclose p hc).2
+      · right; exact hfar p hf
+  -- bad lines as an index set
+  have hbadcard : ((Finset.range n).filter (fun i => ¬ goodI i)).card = good.count false := by
+    have := Count.countP_eq_card good false (fun b => b == false)
+    rw [List.count_eq_countP]
+    rw [show (fun x : Bool => x == false) = (fun b => b == false) from rfl] at *
+    rw [this, h.len_g]
+    congr 1
+    apply Finset.filter_congr
+    intro i _
+    rw [hgoodI']
+    cases good.getD i false <;> simp
+  have hmaj : 2 * ((Finset.range n).filter (fun i => ¬ goodI i)).card < n := by rw [hbadcard]; omega
+  obtain ⟨hcount, hmany⟩ := Count.majority_count n goodI nearI bandI ha hb hmaj
+  -- back to the list of near-header offsets
+  set near := nearOf {} hd offs with hnear
+  have hmd : ({} : S2Params).maxDiffHead = 360000 := rfl
+  have hnearlen : near.length = ((Finset.range n).filter nearI).card := by
+    rw [hnear, nearOf, ← List.countP_eq_length_filter, Count.countP_eq_card offs 0, hofflen]
+    congr 1
+    apply Finset.filter_congr
+    intro i hi
+    rw [Finset.mem_range] at hi
+    rw [hoffi i hi, hmd, hnearI']
+    simp only [decide_eq_true_eq]
+    rw [show offErr P sg nowYear r0 r i + C - (hd : Rat) = offErr P sg nowYear r0 r i + (C - (hd : Rat)) by ring]
+  have hnearband : near.countP (inBand (C - 2) (C + 2)) = ((Finset.range n).filter (fun i => nearI i ∧ bandI i)).card := by
+    rw [hnear, nearOf, List.countP_filter, Count.countP_eq_card offs 0, hofflen]
+    congr 1
+    apply Finset.filter_congr
+    intro i hi
+    rw [Finset.mem_range] at hi
+    rw [hoffi i hi, hmd, hnearI', hbandI']
+    simp only [inBand, Bool.and_eq_true, decide_eq_true_eq]
+    rw [show offErr P sg nowYear r0 r i + C - (hd : Rat) = offErr P sg nowYear r0 r i + (C - (hd : Rat)) by ring,
+      absR_le_iff (offErr P sg nowYear r0 r i) 2]
+    constructor
+    · rintro ⟨⟨h1, h2⟩, h3⟩
+      exact ⟨h3, by linarith, by linarith⟩
+    · rintro ⟨h3, h1, h2⟩
+      exact ⟨⟨by linarith, by linarith⟩, h3⟩
+  have hmaj' : near.length < 2 * near.countP (inBand (C - 2) (C + 2)) := by rw [hnearlen, hnearband]; exact hcount
+  have ht0 := t0_in_band near C 2 hmaj'
+  have hfrac : ({} : S2Params).minFrac ≤ (near.length : Rat) / (r.nums.length : Rat) := by
+    have hge : near.countP (inBand (C - 2) (C + 2)) ≤ near.length := List.countP_le_length
+    have h5 : n < 5 * near.length := by
+      rw [hnearband] at hge
+      rw [hbadcard] at hmany
+      omega
+    have h5R : (n : Rat) < 5 * (near.length : Rat) := by exact_mod_cast h5
+    have hnR : (0 : Rat) < (n : Rat) := by exact_mod_cast hnpos
+    have hmf : ({} : S2Params).minFrac = 1 / 100 := rfl
+    rw [hmf, h.nums_eq, le_div_iff₀ hnR]
+    linarith
+  have hs2 : stage2 {} P sg r.nums (some hd) t1 = .times (List.zipWith (repairLine {} (medianD near)) t1 tn) := by
+    unfold stage2
+    simp only [hdec, Bool.false_eq_true, if_false]
+    rw [if_pos hfrac]
+  have hget : getTimes {} P nowYear sg (some hd) r = List.zipWith (repairLine {} (medianD near)) t1 tn := by
+    unfold getTimes
+    simp only [← ht1, hs2]
+  rw [hget]
+  refine ⟨by rw [List.length_zipWith, hlen1, htnlen, Nat.min_self], ?_⟩
+  intro i hi h1
+  rw [List.getElem_zipWith]
+  have hspec := repairLine_spec {} (medianD near) C 2 (t1[i]'(by omega)) (tn[i]'(by omega)) ht0
+  have hmi : ({} : S2Params).maxDiffIdeal = 10000 := rfl
+  rw [hmi] at hspec
+  rw [← htni i (by omega) hi]
+  rcases hspec.2.1 with hle | hlt
+  · linarith
+  · linarith
 
 end PygacModel.Times
